@@ -14,8 +14,28 @@ import (
 )
 
 func Parse(expression string) (Node, error) {
+	node, err := parse(expression, false)
+
+	switch err.(type) {
+	case *InvalidFunctionArgumentError, *InvalidFunctionCallError, *UnknownFunctionError, *InvalidSliceStepError:
+		// A call with the wrong number of arguments, an argument of the
+		// wrong kind or an unknown name is still a call as far as the
+		// grammar is concerned, and so is a slice with a step of 0 a slice;
+		// such a fault is found before the rest of the expression has been
+		// looked at. A malformed expression is a syntax error whatever calls
+		// and slices it contains.
+		if _, err := parse(expression, true); err != nil {
+			return nil, err
+		}
+	}
+
+	return node, err
+}
+
+func parse(expression string, syntaxOnly bool) (Node, error) {
 	p := parser{
-		lex: lexer.NewLexer(expression),
+		lex:        lexer.NewLexer(expression),
+		syntaxOnly: syntaxOnly,
 	}
 
 	if err := p.lex.Next(&p.curr); err != nil {
@@ -37,6 +57,11 @@ type parser struct {
 	// afterDot is set while the token after a "." is parsed: only an
 	// identifier, not a let expression, can stand there
 	afterDot bool
+
+	// syntaxOnly is set when only the grammar is checked: calls are not
+	// looked up, their arguments neither counted nor typed, and a slice
+	// step of 0 is let through
+	syntaxOnly bool
 }
 
 func (p *parser) advance() error {
@@ -480,6 +505,10 @@ func (p *parser) function() (Node, error) {
 		return nil, err
 	}
 
+	if p.syntaxOnly {
+		return &NullNode{}, p.skipArguments()
+	}
+
 	switch name {
 	case "abs":
 		arg, err := p.function1Arg(name)
@@ -919,6 +948,37 @@ func (p *parser) function() (Node, error) {
 	}
 
 	return nil, &UnknownFunctionError{name}
+}
+
+// skipArguments checks the syntax of the argument list of a call whose
+// opening parenthesis has been consumed.
+func (p *parser) skipArguments() error {
+	if p.curr.Type == lexer.CloseParenToken {
+		return p.advance()
+	}
+
+	for {
+		if p.curr.Type == lexer.ExpressionToken {
+			if err := p.advance(); err != nil {
+				return err
+			}
+		}
+
+		if _, err := p.expression(1); err != nil {
+			return err
+		}
+
+		switch p.curr.Type {
+		case lexer.CommaToken:
+			if err := p.advance(); err != nil {
+				return err
+			}
+		case lexer.CloseParenToken:
+			return p.advance()
+		default:
+			return &unexpectedTokenError{p.curr.Value}
+		}
+	}
 }
 
 // argument parses a function argument that has to be a value. An expression
@@ -1522,7 +1582,7 @@ func (p *parser) index(child Node) (Node, bool, error) {
 			return nil, false, &invalidIndexError{p.curr.Value}
 		}
 
-		if step == 0 {
+		if step == 0 && !p.syntaxOnly {
 			return nil, false, &InvalidSliceStepError{}
 		}
 
